@@ -489,6 +489,11 @@ func synthCert(g *RNG, idx []string) *ObjSpec {
 		if g.Chance(0.2) && len(hosts) > 0 {
 			hosts = append(hosts, hosts[0])
 		}
+		if g.Chance(0.03) {
+			// a name of several thousand bytes (whatever quotes it in its findings says a lot)
+			giant := strings.TrimSuffix(strings.Repeat(strings.Repeat(pick(g, []string{"a", "x", "0"}), 61)+".", g.Range(60, 200)), ".") + pick(g, []string{".onion", ".example.com", ".invalidtld"})
+			hosts = append([]string{giant}, hosts...)
+		}
 		if g.Chance(0.12) {
 			// an onion-service certificate with several services
 			for _, j := range g.subset(6, g.Range(2, 4)) {
@@ -759,6 +764,10 @@ func synthCert(g *RNG, idx []string) *ObjSpec {
 					hsh[j] = byte(g.Intn(256))
 				}
 				uri := pick(g, []string{"https://", "https://", "http://", ""}) + o
+				if g.Chance(0.2) {
+					// an authority with a port, with user information, without a host; a path only
+					uri = pick(g, []string{"https://" + o + ":443", "https://" + o + ":443/x", "https://:443/aaaaa", "https://user@" + o, "https://:/", "https:///" + o, "//" + o, "https://" + o + "/?q=1#f", "https://[::1]:443/"})
+				}
 				ds = append(ds, dseq(dstr("utf8", uri), dseq(doid(alg)), dbits(hsh, 0)))
 			}
 			if len(ds) > 0 {
